@@ -250,7 +250,9 @@ class RaggedArray(IndexableArray, np.lib.mixins.NDArrayOperatorsMixin):
         assert data.dtype == dtype, (values.dtype, data.dtype, dtype)
         return RaggedArray(data, self._shape)
 
-    def _reduce(self, ufunc, ra, axis=0, **kwargs):
+    def _reduce(self, ufunc, ra, axis=0, keepdims=False, **kwargs):
+        if axis is None:
+            return ufunc.reduce(self.ravel(), **kwargs)
         assert axis in (
             1,
             -1,
@@ -276,6 +278,8 @@ class RaggedArray(IndexableArray, np.lib.mixins.NDArrayOperatorsMixin):
         if ufunc.identity is not None:
             result[ra._shape.lengths == 0] = ufunc.reduce(result[:0])
 
+        if keepdims:
+            result = result[:, None]
         return result
 
     def _reduce_invertable(self, ufunc, ra, axis, **kwargs):
